@@ -59,8 +59,8 @@ def run_traj(cls, mname, x0, p0, dt, nsteps, rng, backend, tmpdir):
     else:
         with open(os.path.join(tmpdir, log.event_log)) as f:
             evs = yaml.safe_load(f) or []
-        hops = [e for e in evs if e["event"] == "hop"]
-        fr = [e for e in evs if e["event"] == "frustrated_hop"]
+        hops = [e for e in evs if e.get("event") == "hop"]
+        fr = [e for e in evs if e.get("event") == "frustrated_hop"]
     return dict(active=active, times=times, hops=hops, fr=fr, atts=atts, rho0=rho0)
 
 
